@@ -488,6 +488,26 @@ func c15ToFloat(c *hx.Ctx, r *hx.RNG) {
 	var v oracle.Val
 	var cls string
 	switch k := r.Intn(100); {
+	case k < 5:
+		// the leading digits of a double whose expansion goes on with 19 or more zeros (nines) and then further digits
+		// (table found by lattice reduction, tools/hard_expansions.py): x differs from that double by less than any
+		// fixed number of guard digits shows, and the accuracy must still say on which side it lies
+		bits32 = false
+		h := hardFloats[r.Intn(len(hardFloats))]
+		ex := exactOfFloat(math.Ldexp(float64(h.m), h.e))
+		ds := ex.Coef.String()
+		cut := h.digits + r.Range(0, h.run+3)
+		if r.Chance(20) {
+			cut = r.Range(17, len(ds))
+		}
+		if cut > len(ds) {
+			cut = len(ds)
+		}
+		pc, _ := new(big.Int).SetString(ds[:cut], 10)
+		if h.nines && cut < h.digits+h.run || r.Chance(20) {
+			pc.Add(pc, big.NewInt(1)) // (the prefix before a run of nines, rounded up: just above the double)
+		}
+		v, cls = oracle.Val{Form: oracle.Finite, Neg: r.Bool(), Coef: pc, Exp: ex.Exp + int64(len(ds)-cut)}, "hard-expansion-prefix"
 	case k < 55:
 		v, cls = genNearGrid(r, bits32)
 	case k < 60:
